@@ -322,6 +322,34 @@ def run(ctx):
     badp = [c for c, nm in plain if nm != "isSimpleIdentifierChar"]
     r.check(not badp, "evalString|simple-identifier", "%d tests" % len(plain), "an unbraced `$name` reference is scanned with the full-name class: `$out.d` would swallow the `.d`", f, badp[0] if badp else None)
 
+    # ---------------------------------------------------------------- `$`-newline inside a path
+    r = rep.rule("R-PATH-CONTINUATION", "a path token ends at the first space, so after a `$`-escaped newline the path lexer itself takes the next line's leading blanks "
+                                        "into the token (Ninja: `$\\n[ ]*` is skipped inside a path; evalString then drops them) — otherwise `a$\\n  b.c` stops after "
+                                        "the newline and the indented remainder is read as a new, malformed statement", floor=1)
+    lp_ = prog.fn("Lexer::lexPathString")
+    dollar = [n for n in lp_.nodes if n.get("k") == "if" and any(x.get("k") == "char" and x.get("v") == ord("$") for x in n.child("c").walk())]
+    okc = False
+    if len(dollar) >= 1:
+        def nl_guard(fn_, node_):
+            return any(a_.get("k") == "if" and any(x.get("k") == "char" and x.get("v") == ord("\n") for x in a_.child("c").walk()) for a_ in fn_.ancestors(node_))
+
+        def blank_loops(fn_, root):
+            return [w_ for w_ in root.walk() if w_.get("k") in ("while", "for", "do") and "isNonNewlineSpace" in expr_str(w_.child("c")) and
+                    "peekNextChar" in expr_str(w_.child("c")) and any(c_.get("k") == "call" and (c_.get("fn") or "").endswith("getNextChar") for c_ in w_.child("body").walk())]
+        for d_ in dollar:
+            for w_ in blank_loops(lp_, d_.child("then")):
+                okc = okc or nl_guard(lp_, w_)          # ... under the test that the escaped character was the newline
+            # or in a small helper of the lexer called from the branch
+            for c_ in d_.child("then").walk():
+                h_ = prog.functions.get(c_.get("fk")) if c_.get("k") == "call" and c_.get("fk") else None
+                if h_ is not None and h_ is not lp_ and (h_.cls == lp_.cls or relpath(h_.file) == relpath(lp_.file)) and h_.nodes:
+                    root = next((x for x in h_.nodes if x.get("k") == "compound"), None)
+                    for w_ in (blank_loops(h_, root) if root is not None else []):
+                        okc = okc or nl_guard(lp_, c_) or nl_guard(h_, w_)
+    else:
+        raise AnalysisBroken("lexPathString: `$` branch not found")
+    r.check(okc, "lexPathString|blanks-after-escaped-newline", "", "after `$` + newline the path lexer does not consume the following blanks", lp_, dollar[0])
+
     # ---------------------------------------------------------------- shell-safe set
     r = rep.rule("R-SHELL-SAFE-SET",
                  "the pass-through set of appendShellEscapedString contains no character POSIX sh treats specially; "
@@ -469,4 +497,6 @@ VARIANTS = [
          expect=("R-ESCAPES", "braced-name-class")),
     dict(name="unbraced-reference-takes-dotted-names", file="lib/Ninja/ManifestLoader.cpp", old="        while (pos != end && Lexer::isSimpleIdentifierChar(*pos))", new="        while (pos != end && Lexer::isIdentifierChar(*pos))",
          expect=("R-ESCAPES", "simple-identifier")),
+    dict(name="path-continuation-keeps-indentation", file="lib/Ninja/Lexer.cpp", old="      // If the character was a newline, consume any leading spaces.\n      if (c == '\\n') {\n        while (isNonNewlineSpace(peekNextChar()))\n          getNextChar();\n      }\n\n      continue;",
+         new="      continue;", expect=("R-PATH-CONTINUATION", "blanks-after-escaped-newline")),
 ]
